@@ -7,6 +7,8 @@
   changed dot rule … breaks a named theorem of this file.
 -/
 import GIV.Lemmas.FsxFS
+import GIV.Lemmas.FsxSave
+import GIV.Lemmas.FsxCleanBytes
 
 namespace GIV.C15
 open GIV GIV.Txtar GIV.Fsx
@@ -150,6 +152,14 @@ example : cleanPath [97, 47, 46, 46, 47, 46, 46, 47, 98] = [46, 46, 47, 98] := b
 example : cleanPath [97, 47, 46, 46] = dotB ∧ cleanPath [97, 47, 47, 98, 47] = [97, 47, 98] := by decide
 example : Gen.Fsx.isAbs [97, 47, 46, 46, 47, 46, 46] = false ∧ cleanPath [97, 47, 46, 46, 47, 46, 46] = dotdotB := by decide
 
+/-- **clean_byteloop.** The component-stack `cleanPath`, about which the theorems here are stated, is the
+same function as `cleanBytes`, the transcription of Go's byte loop (internal/filepathlite.Clean: read
+index, output buffer, `dotdot` mark, backtracking to the previous separator) — for every input. -/
+theorem clean_byteloop (p : Bytes) : cleanBytes p = cleanPath p := cleanBytes_eq p
+
+example : cleanBytes [47, 97, 47, 46, 46, 47, 46, 46, 47, 98, 47] = [47, 98] ∧
+    cleanBytes [46, 46, 47, 46, 46, 47, 97, 47, 46, 46] = [46, 46, 47, 46, 46] := by decide
+
 /-! ### Write -/
 
 /-- **write_contained.** Whatever `Write` adds to the file system — in runs that succeed and in runs
@@ -169,6 +179,22 @@ theorem write_contained_files (a : Archive) (dir : Path) (fs : FS) (q : Path) (d
   · exact h
   · cases h
 
+/-- the same on path strings: a created regular file's absolute path starts with `dir + "/"`. -/
+theorem write_contained_str (a : Archive) (dir : Path) (fs : FS) (q : Path) (d : Bytes) (hd : dir ≠ [])
+    (hnew : fs.get q = none) (hafter : (writeArchive a dir fs).2.get q = some (.file d)) :
+    pathStr dir ++ [SEP] <+: pathStr q := by
+  obtain ⟨h1, h2⟩ := write_contained_files a dir fs q d hnew hafter
+  exact pathStr_prefix_of_beneath h1 h2 hd
+
+/-- the model's `joinPath` is `filepath.Join(dir, fp)`, i.e. `Clean(dir + "/" + fp)`, for a normalised
+absolute `dir`. -/
+theorem join_is_clean (dir : Path) (hd : ∀ c ∈ dir, Normal c) (fp : Bytes) :
+    cleanPath (pathStr dir ++ SEP :: fp) = pathStr (joinPath dir fp) :=
+  joinPath_eq_clean hd fp
+
+example : pathStr [[112], [100]] = [47, 112, 47, 100] ∧ joinPath [[112], [100]] [46, 46, 47, 120] = [[112], [120]] := by
+  decide
+
 -- an archive whose second entry is rejected: the first file stays, nothing else appears
 example :
     writeArchive ⟨[], [⟨[97], [120]⟩, ⟨[46, 46, 47, 97], [121]⟩]⟩ [[112], [100]] [([[112]], .dir)] =
@@ -187,6 +213,33 @@ theorem write_rejects_entry (dir : Path) (fs : FS) (f : File) (h : Escapes f.nam
 theorem write_rejects_escape (a : Archive) (dir : Path) (fs : FS)
     (h : ∃ f ∈ a.files, Escapes f.name) : (writeArchive a dir fs).1 ≠ none :=
   writeFiles_escape_error dir fs a.files h
+
+/-- "climbs out", stated without Clean: the name is absolute, or following its '/'-separated elements one
+by one (empty and "." stay, ".." goes up, anything else goes down) steps above the starting directory
+at some point. This is exactly when `Write`'s test fires. -/
+theorem escapes_iff_climbs (name : Bytes) :
+    Escapes name ↔ (Gen.Fsx.isAbs name = true ∨ climbsOut name = true) := by
+  unfold Escapes
+  by_cases ha : Gen.Fsx.isAbs name = true
+  · simp [ha]
+  · have hrel : name.head? ≠ some SEP := fun hh => ha ((isAbs_iff name).mpr hh)
+    rw [← clean_climbs_iff name hrel]
+
+/-- **write_rejects_escape**, in terms of the name itself: an archive with an entry whose name is
+absolute or climbs out through ".." makes `Write` return an error; the offending entry creates nothing. -/
+theorem write_rejects_climbing (a : Archive) (dir : Path) (fs : FS)
+    (h : ∃ f ∈ a.files, Gen.Fsx.isAbs f.name = true ∨ climbsOut f.name = true) :
+    (writeArchive a dir fs).1 ≠ none ∧
+    ∀ f, (Gen.Fsx.isAbs f.name = true ∨ climbsOut f.name = true) → ∀ fs0, writeOne dir fs0 f = (some .outside, fs0) := by
+  refine ⟨?_, ?_⟩
+  · obtain ⟨f, hf, hc⟩ := h
+    exact write_rejects_escape a dir fs ⟨f, hf, (escapes_iff_climbs f.name).mpr hc⟩
+  · intro f hc fs0
+    exact write_rejects_entry dir fs0 f ((escapes_iff_climbs f.name).mpr hc)
+
+-- "a/../../a" returns to a sibling named like the start but has been outside; "a/b/../.." has not
+example : climbsOut [97, 47, 46, 46, 47, 46, 46, 47, 97] = true ∧ climbsOut [97, 47, 98, 47, 46, 46, 47, 46, 46] = false ∧
+    climbsOut [46, 46] = true ∧ climbsOut [] = false ∧ climbsOut [46, 46, 97] = false := by decide
 
 example : Escapes [46, 46] ∧ Escapes [97, 47, 46, 46, 47, 46, 46] ∧ Escapes [47, 97] ∧ Escapes [46, 46, 47] ∧
     ¬ Escapes [46, 46, 97] ∧ ¬ Escapes [97, 47, 46, 46] := by
@@ -212,5 +265,162 @@ theorem write_contents (a : Archive) (dir : Path) (fs : FS) (hok : (writeArchive
 
 example : (writeArchive ⟨[], [⟨[97, 47, 46, 46, 47, 98], [120]⟩, ⟨[99, 47, 47, 100], [121]⟩]⟩ [[100]] []).1 = none ∧
     joinPath [[100]] (cleanPath [99, 47, 47, 100]) = [[100], [99], [100]] := by decide
+
+/-- the abstract file system stays a tree under `Write` (every entry's parent is a directory, so a
+regular file never has anything beneath it) — a sanity property of the model the theorems above speak about. -/
+theorem write_keeps_tree (a : Archive) (dir : Path) (fs : FS) (h : TreeFS fs) :
+    TreeFS (writeArchive a dir fs).2 :=
+  treeFS_writeFiles h dir a.files
+
+example : TreeFS [] := by
+  intro q n hq h
+  simp [FS.get, hq, lookupP] at h
+
+/-- the same for the txtar-x command (Parse, then Write), on any input text: what it creates lies beneath
+`dir` (directories on the way to `dir` excepted), nothing that existed changes, and a parsed entry that is
+absolute or climbs out makes it fail. -/
+theorem extract_contained (data : Bytes) (dir : Path) (fs : FS) (r : Option Err × FS)
+    (h : extract data dir fs = some r) :
+    (∀ q n, fs.get q = none → r.2.get q = some n → (dir <+: q ∧ q ≠ dir) ∨ (n = .dir ∧ q <+: dir)) ∧
+    (∀ q n, fs.get q = some n → r.2.get q = some n) ∧
+    (∀ a, parse data = some a → (∃ f ∈ a.files, Gen.Fsx.isAbs f.name = true ∨ climbsOut f.name = true) → r.1 ≠ none) := by
+  unfold extract at h
+  cases hp : parse data with
+  | none => rw [hp] at h; cases h
+  | some a =>
+    rw [hp] at h
+    simp only [Option.map_some, Option.some.injEq] at h
+    subst h
+    refine ⟨fun q n h1 h2 => write_contained a dir fs q n h1 h2, fun q n h1 => write_no_overwrite a dir fs q n h1, ?_⟩
+    intro a' ha' hesc
+    injection ha' with ha'
+    subst ha'
+    exact (write_rejects_climbing a dir fs hesc).1
+
+-- "-- ../x --\nhi\n" extracted into the missing directory /a/b: error, nothing created
+example : extract [45, 45, 32, 46, 46, 47, 120, 32, 45, 45, 10, 104, 105, 10] [[97], [98]] [] = some (some .outside, []) := by
+  decide +kernel
+
+/-! ### txtar-c, then txtar-x -/
+
+/-- the shape of txtar-c's Walk callback and of txtar-x, as regenerated from the source: the dot rule
+(`strings.HasPrefix(name, ".") && !*allFlag`, SkipDir for directories), non-regular files and invalid UTF-8
+skipped, the final newline added, the NeedsQuote/Quote branch with its `unquote ` comment line, all in
+this order; txtar-x writes the parsed archive and never unquotes. -/
+theorem savedir_facts :
+    (∀ (name : Bytes) (all : Bool), Gen.Fsx.dotSkip name all = (([DOT] : Bytes).isPrefixOf name && !all)) ∧
+    Gen.Fsx.dotSkipsDir = true ∧ Gen.Fsx.skipsNonRegular = true ∧ Gen.Fsx.skipsInvalidUTF8 = true ∧
+    Gen.Fsx.addsFinalNewline = true ∧ Gen.Fsx.quoteBranch = true ∧
+    Gen.Fsx.unquotePrefix = [117, 110, 113, 117, 111, 116, 101, 32] ∧
+    Gen.Fsx.callbackOrder = true ∧ Gen.Fsx.extractUnquotes = false :=
+  ⟨fun _ _ => rfl, rfl, rfl, rfl, rfl, rfl, rfl, rfl, rfl⟩
+
+instance saveFacts : FSave :=
+  ⟨savedir_facts.1, savedir_facts.2.1, savedir_facts.2.2.1, savedir_facts.2.2.2.1, savedir_facts.2.2.2.2.1,
+   savedir_facts.2.2.2.2.2.1, savedir_facts.2.2.2.2.2.2.1⟩
+
+/-- the txtar facts the round trip relies on (marker literals, isMarker's length guard and CR handling,
+NeedsQuote's return expression), regenerated by the txtar group's factgen. -/
+theorem txtar_facts :
+    Gen.Txtar.lenGuard = true ∧ Gen.Txtar.crAtEOF = true ∧ Gen.Txtar.marker = [45, 45, 32] ∧
+    Gen.Txtar.markerEnd = [32, 45, 45] ∧ Gen.Txtar.needsQuoteTestsName = true := ⟨rfl, rfl, rfl, rfl, rfl⟩
+
+instance : FLen := ⟨txtar_facts.1⟩
+instance : FCR := ⟨txtar_facts.2.1⟩
+instance : FLit := ⟨txtar_facts.2.2.1, txtar_facts.2.2.2.1⟩
+instance : FNQ := ⟨txtar_facts.2.2.2.2⟩
+
+/-- **TreeOK** (decidable, `Forest.okb`): every entry name is an ordinary path element (non-empty, not "."
+or "..", no '/'), names within a directory are distinct, and the relative path of every regular file that
+txtar-c archives under the given flags (not below a skipped dot entry, `stored o d ≠ none`) is a name txtar
+can carry (non-empty, equal to its TrimSpace, no newline). -/
+def TreeOK (o : SaveOpts) (t : Forest) : Prop := t.okb o [] = true
+
+instance (o : SaveOpts) (t : Forest) : Decidable (TreeOK o t) := by unfold TreeOK; exact inferInstance
+
+/-- an empty file system is a clear target for any `dir` (which txtar-x then creates). -/
+theorem clear_nil (dir : Path) : Clear dir [] := by
+  refine ⟨?_, ?_⟩
+  · intro q _ d h
+    by_cases hq : q = []
+    · subst hq; simp [FS.get] at h
+    · simp [FS.get, hq, lookupP] at h
+  · intro q _ _
+    by_cases hq : q = []
+    · subst hq
+      rename_i h1 h2
+      exact absurd (List.prefix_nil.mp h1).symm h2
+    · simp [FS.get, hq, lookupP]
+
+/-- **savedir_extract_roundtrip.**  For every tree satisfying `TreeOK`, every flag setting of txtar-c, and
+every target `dir` with nothing in the way (`Clear`: no ancestor of `dir` is a regular file, nothing exists
+beneath `dir`; `dir` itself may be missing): txtar-c's output `format a` is a well-formed archive that parses
+back to `a`; txtar-x extracts it without error; every regular file of the tree that is archivable
+(no dot-prefixed element on its path unless `-a`; `stored o d = some (x, q)`: valid UTF-8, and no marker line
+in it unless `-quote`) is afterwards at the same relative path beneath `dir` with content `x`
+(`write` side: exactly the stored bytes; `stored_restores`: `x` is the content with its final newline, or
+`Unquote x` is) and, when it was quoted, the comment carries the line `unquote <path>`; and every regular
+file that appeared anywhere is one of these.  txtar-x itself never unquotes (`savedir_facts`). -/
+theorem savedir_extract_roundtrip (o : SaveOpts) (t : Forest) (dir : Path) (fs : FS)
+    (hok : TreeOK o t) (hclear : Clear dir fs) :
+    ∃ (a : Archive) (fs' : FS),
+      saveDir o t = some a ∧ WF a ∧ parse (format a) = some a ∧
+      extract (format a) dir fs = some (none, fs') ∧
+      (∀ c cs d x q, t.find c cs = some (.file d) → NoDot o (c :: cs) → stored o d = some (x, q) →
+        fs'.get (dir ++ c :: cs) = some (.file x) ∧
+        (q = true → Gen.Fsx.unquotePrefix ++ joinSep (c :: cs) ++ [NL] <:+: a.comment)) ∧
+      (∀ p x, fs.get p = none → fs'.get p = some (.file x) →
+        ∃ c cs d q, p = dir ++ c :: cs ∧ t.find c cs = some (.file d) ∧ NoDot o (c :: cs) ∧
+          stored o d = some (x, q)) :=
+  roundtrip o t dir fs hok hclear
+
+/-- what comes back is the original content with the final newline txtar requires, or — for a file
+that went through Quote — something `Unquote` maps to exactly that. -/
+theorem stored_restores (o : SaveOpts) (d x : Bytes) (q : Bool) (h : stored o d = some (x, q)) :
+    (q = false ∧ x = fixNL d) ∨ (q = true ∧ unquote x = .ok (fixNL d)) :=
+  Fsx.stored_restores h
+
+/-- **which files are archived and in what form** (`stored`), in the statement's terms: invalid UTF-8 is
+dropped; content without a marker line is stored with its final newline; content with a marker line is
+dropped without `-quote` and, with `-quote`, stored as `Quote(content + final newline)` — which cannot
+fail at that point — and `Unquote` restores it. -/
+theorem stored_spec (o : SaveOpts) (d : Bytes) :
+    (utf8Valid d = false → stored o d = none) ∧
+    (utf8Valid d = true → ¬ HasMarkerLine (fixNL d) → stored o d = some (fixNL d, false)) ∧
+    (utf8Valid d = true → HasMarkerLine (fixNL d) → o.quote = false → stored o d = none) ∧
+    (utf8Valid d = true → HasMarkerLine (fixNL d) → o.quote = true →
+      ∃ x, stored o d = some (x, true) ∧ quote (fixNL d) = .ok x ∧ unquote x = .ok (fixNL d)) := by
+  refine ⟨fun h => (stored_none_iff o d).mpr (Or.inl h), fun hu hm => stored_plain hu hm,
+    fun _ hm hq => (stored_none_iff o d).mpr (Or.inr ⟨hm, hq⟩), ?_⟩
+  intro hu hm hq
+  obtain ⟨x, h1, h2⟩ := stored_quoted hu hm hq
+  exact ⟨x, h1, h2, unquote_quote h2⟩
+
+/-- the example tree:  a = "-- x --\n" (needs quoting),  sub/"b c" = "hi" (no final newline),  .h = "h\n". -/
+def exTree : Forest :=
+  .cons [46, 104] (.file [104, 10]) <|
+  .cons [97] (.file [45, 45, 32, 120, 32, 45, 45, 10]) <|
+  .cons [115, 117, 98] (.dir (.cons [98, 32, 99] (.file [104, 105]) .nil)) .nil
+
+example : TreeOK ⟨false, true⟩ exTree ∧ TreeOK ⟨true, false⟩ exTree := by decide +kernel
+-- a file whose name ends in a blank is not representable … unless txtar-c skips it anyway (here: dot directory without -a)
+example : ¬ TreeOK ⟨true, true⟩ (.cons [46, 100] (.dir (.cons [120, 32] (.file [104, 10]) .nil)) .nil) ∧
+    TreeOK ⟨false, true⟩ (.cons [46, 100] (.dir (.cons [120, 32] (.file [104, 10]) .nil)) .nil) := by decide +kernel
+example : stored ⟨false, true⟩ [45, 45, 32, 120, 32, 45, 45, 10] = some ([62, 45, 45, 32, 120, 32, 45, 45, 10], true) ∧
+    stored ⟨false, false⟩ [45, 45, 32, 120, 32, 45, 45, 10] = none ∧
+    stored ⟨false, false⟩ [104, 105] = some ([104, 105, 10], false) ∧ stored ⟨true, true⟩ [255] = none := by
+  decide +kernel
+example : exTree.find [115, 117, 98] [[98, 32, 99]] = some (.file [104, 105]) := by
+  simp [exTree, Forest.find, Tree.find]
+example : NoDot ⟨false, true⟩ [[115, 117, 98], [98, 32, 99]] ∧ ¬ NoDot ⟨false, true⟩ [[46, 104]] := by
+  unfold NoDot; decide +kernel
+-- the whole pipeline on the example, with -quote, into the missing directory /o
+example : (saveDirBytes ⟨false, true⟩ exTree).bind (fun b => extract b [[111]] []) =
+    some (none, [([[111], [115, 117, 98], [98, 32, 99]], .file [104, 105, 10]),
+                 ([[111], [115, 117, 98], [98, 32, 99]], .file []),
+                 ([[111], [115, 117, 98]], .dir),
+                 ([[111], [97]], .file [62, 45, 45, 32, 120, 32, 45, 45, 10]),
+                 ([[111], [97]], .file []),
+                 ([[111]], .dir)]) := by decide +kernel
 
 end GIV.C15
